@@ -449,8 +449,11 @@ def compare_signal(s1, s2, ignore=None):
                         "changed", "comment", s1, [
                             "only whitespaces differ", ""]))
 
+    # compare receiver names without surrounding white space on both sides
+    receivers1 = [receiver.strip() for receiver in s1.receivers]
+    receivers2 = [receiver.strip() for receiver in s2.receivers]
     for receiver in s1.receivers:
-        if receiver.strip() not in s2.receivers:
+        if receiver.strip() not in receivers2:
             result.add_child(
                 CompareResult(
                     "removed",
@@ -459,7 +462,7 @@ def compare_signal(s1, s2, ignore=None):
                     s1.receivers))
 
     for receiver in s2.receivers:
-        if receiver.strip() not in s1.receivers:
+        if receiver.strip() not in receivers1:
             result.add_child(
                 CompareResult(
                     "added",
